@@ -88,7 +88,7 @@ class LiquidTag(Tag):
             rules = (
                 (
                     "LIQUID_EXPR",
-                    rf"[ \t]*(?P<name>(#|\w+|{seq}))[ \t]*(?P<expr>.*?)[ \t\r]*?(\n+|$)",
+                    rf"[ \t]*(?P<name>({seq}|#|\w+))[ \t]*(?P<expr>.*?)[ \t\r]*?(\n+|$)",
                 ),
                 ("SKIP", r"[\r\n]+"),
                 (TOKEN_ILLEGAL, r"."),
